@@ -150,6 +150,7 @@ type c17h struct {
 	r    *Run
 	f    *Fix
 	base sdk.Context
+	f0   *Fix // the fixture as prepared (C18 continue-after-import replaces the application behind h.f)
 	k    dymnskeeper.Keeper
 
 	nA, nN, nL, nR int
@@ -230,6 +231,9 @@ func bigs(s string) []math.Int {
 
 // reset starts a fresh trace on a branch of the base state.
 func (h *c17h) reset(f []string) string {
+	if h.f0 != nil {
+		h.f.Restore(*h.f0)
+	}
 	h.f.Ctx = h.base
 	cctx, _ := h.base.CacheContext()
 	h.f.Ctx = cctx.WithGasMeter(storetypes.NewInfiniteGasMeter())
